@@ -25,14 +25,15 @@ LABEL = {'Simulate("A")': "simA", 'Simulate("B")': "simB", 'Simulate("C")': "sim
 SIM_OF = {"simA": "A", "simB": "B", "simC": "C", "simA+S1": "AS1", "simB+S2": "BS2"}
 
 
-def run_tlc():
-    """Return (nodes: id -> (sim, (kind, simid)), edges: [(src, label, dst)], init id, tlc summary line)."""
+def run_tlc(module="Reservoir"):
+    """Return (nodes: id -> (sim, (kind, simid)), edges: [(src, label, dst)], init id, tlc summary line).
+    For module "ReservoirExt" a node is the dict {sim: (run, pf), pf, dirty, cache: (kind, run, pf)}."""
     d = Path(tempfile.mkdtemp(prefix="bbtlc-"))
     try:
         if shutil.which("tlc") is None:
             raise FileNotFoundError("tlc")
         r = subprocess.run(["tlc", "-workers", "1", "-noGenerateSpecTE", "-metadir", str(d / "meta"), "-deadlock",
-                            "-dump", "dot,actionlabels", str(d / "graph"), "Reservoir.tla"],
+                            "-dump", "dot,actionlabels", str(d / "graph"), module + ".tla"],
                            cwd=str(VERIF / "tla"), capture_output=True, text=True, timeout=300)
         out = r.stdout + r.stderr
         if "No error has been found" not in out:
@@ -42,13 +43,21 @@ def run_tlc():
     except (FileNotFoundError, subprocess.TimeoutExpired, OSError) as e:
         # the model is static: if the model checker cannot be started here, replay the committed dump of
         # the same model (tla/Reservoir.graph.dot, produced by the command above) and say so
-        dot = (VERIF / "tla" / "Reservoir.graph.dot").read_text()
+        dot = (VERIF / "tla" / (module + ".graph.dot")).read_text()
         summary = f"TLC not started here ({type(e).__name__}); committed state-graph dump of the same model replayed"
     finally:
         shutil.rmtree(d, ignore_errors=True)
     nodes, edges, init = {}, [], None
     for m in re.finditer(r'^(-?\d+) \[label="((?:[^"\\]|\\.)*)"(,style = filled)?', dot, re.M):
         lab = m.group(2).replace('\\"', '"').replace("\\\\", "\\")
+        if module == "ReservoirExt":
+            sm = re.search(r'sim = <<"(\w+)", "(\w+)">>', lab)
+            c = re.search(r'cache = <<"(\w+)", "(\w+)", "(\w+)">>', lab)
+            nodes[m.group(1)] = {"sim": (sm.group(1), sm.group(2)), "pf": re.search(r'pf = "(\w+)"', lab).group(1),
+                                 "dirty": re.search(r"dirty = (\w+)", lab).group(1) == "TRUE", "cache": c.groups()}
+            if m.group(3):
+                init = m.group(1)
+            continue
         sim = re.search(r'sim = "(\w+)"', lab).group(1)
         c = re.search(r'cache = <<"(\w+)", "(\w+)">>', lab)
         nodes[m.group(1)] = (sim, (c.group(1), c.group(2)))
@@ -128,4 +137,101 @@ def conformance(cfg):
             viol.append(V("model-conformance/refinement-mapping", f"after {hist} the implementation's state abstracts to {a}, "
                           f"the model is in {nodes[t]}", case=case))
     return {"violations": viol[:3], "tlc": {"model_states": len(nodes), "model_edges": len(edges), "edges_replayed": len(edges),
+                                            "tlc_summary": summary}}
+
+
+# ---------------------------------------------------------------------------------------------------------
+# the wider model (tla/ReservoirExt.tla): field reassignment between runs and rejected simulate calls
+
+LABEL_EXT = dict(LABEL, SimBad="simB+bad", SimOOR="simB+oor", SetP="setP")
+RUN_OP = {"A": "simA", "B": "simB", "C": "simC", "AS1": "simA+S1", "BS2": "simB+S2"}
+
+
+def conformance_ext(cfg, part=0, parts=1):
+    """Replay every edge (or the part-th of `parts` slices of the edge list) of ReservoirExt's state graph."""
+    from .props import c10  # noqa: PLC0415
+
+    nodes, edges, init, summary = run_tlc("ReservoirExt")
+    path = {init: []}
+    q = collections.deque([init])
+    out_edges = collections.defaultdict(list)
+    for s, lab, t in edges:
+        out_edges[s].append((lab, t))
+    while q:
+        s = q.popleft()
+        for lab, t in out_edges[s]:
+            if t not in path:
+                path[t] = path[s] + [LABEL_EXT[lab]]
+                q.append(t)
+    assert len(path) == len(nodes), "model state graph is not connected from Init"
+    # concrete values of every abstract observation, from FRESH objects constructed with the field value of the run
+    field, curve, interp = {}, {}, {}
+    for r, op in RUN_OP.items():
+        for p, pre in (("P0", ()), ("P1", ("setP",))):
+            o, obs = c10.build([op], cfg, pre)
+            field[(r, p)] = (obs[-1][1], obs[-1][2])
+            for kind, rop in (("flux", "rf"), ("dens", "rf_density")):
+                curve[(kind, r, p)] = c10.build([op, rop], cfg, pre)[1][-1][1]
+                interp[(kind, r, p)] = c10.build([op, rop, "interp"], cfg, pre)[1][-1][1]
+    # the model distinguishes runs by their field value: the reference values must do so too, or the replay is vacuous
+    distinct_fields = len({history.canon_value(np.asarray(v[1])) for v in field.values()})
+
+    def abstract(obj):
+        d = vars(obj)
+        cur = d.get("pressure_fracface")
+        pf = "?"
+        if np.ndim(cur) == 0:
+            pf = "P0" if cur == cfg[2] else "P1" if cur == 0.5 * cfg[2] else "?"
+        sims = {("none", "none")}
+        if d.get("time") is not None and d.get("pseudopressure") is not None:
+            sims = {k for k, (t, u) in field.items() if history.same(d["time"], t) and history.same(d["pseudopressure"], u)}
+        caches = {("none", "none", "none")}
+        if d.get("recovery") is not None:
+            caches = {k for k, v in curve.items() if history.same(np.asarray(d["recovery"]), v)}
+        return pf, sims, caches
+
+    viol, n = [], 0
+    for idx, (s, lab, t) in enumerate(edges):
+        if idx % parts != part:
+            continue
+        n += 1
+        op = LABEL_EXT[lab]
+        hist = path[s] + [op]
+        obj, obs = c10.build(hist, cfg)
+        got = obs[-1]
+        S, T = nodes[s], nodes[t]
+        case = {"config": list(cfg), "history": hist, "tlc_ext": True,
+                "model_edge": [repr(S), lab, repr(T)]}
+        if lab.startswith("Simulate"):
+            ok = got[0] == "sim" and history.same(got[1], field[T["sim"]][0]) and history.same(got[2], field[T["sim"]][1])
+        elif lab in ("SimBad", "SimOOR"):
+            ok = got[0] == "raise"
+        elif lab == "SetP":
+            ok = got[0] == "set"
+        elif S["sim"][0] == "none":
+            ok = got[0] == "raise"
+        elif S["dirty"]:
+            ok = True  # a read between a field reassignment and the next simulate: not specified
+        elif op == "interp":
+            ok = got[0] == "val" and history.same(got[1], interp[T["cache"]])
+        else:
+            ok = got[0] == "val" and history.same(got[1], curve[T["cache"]])
+        if not ok:
+            viol.append(V("model-conformance/observation", f"wider model, edge {S} --{lab}--> {T}: the implementation, driven "
+                          f"along {hist}, observes something else than the model predicts ({got[0]})", case=case))
+            continue
+        pf, sims, caches = abstract(obj)
+        bad = []
+        if pf != T["pf"]:
+            bad.append(f"field pressure_fracface abstracts to {pf}")
+        if T["sim"] not in sims:
+            bad.append(f"stored run abstracts to {sorted(sims)}")
+        if T["cache"][0] != "any" and "recovery" in vars(obj) and T["cache"] not in caches:
+            # (an implementation that keeps no curve attribute has no cache component to map; reads were tied above)
+            bad.append(f"cached curve abstracts to {sorted(caches)}")
+        if bad:
+            viol.append(V("model-conformance/refinement-mapping", f"wider model: after {hist} " + "; ".join(bad) +
+                          f" - the model is in {T}", case=case))
+    return {"violations": viol[:3], "tlc": {"model": "ReservoirExt", "model_states": len(nodes), "model_edges": len(edges),
+                                            "edges_replayed": n, "part": [part, parts], "distinct_reference_fields": distinct_fields,
                                             "tlc_summary": summary}}
